@@ -89,6 +89,33 @@ pub fn crash_oracles(report: &mut Report, case: &Value, sc: &Scenario, arch: &st
             if got != expected {
                 report.oracle_fail("crash:stitched-listing-wrong", case.clone(), "listing the interrupted version is not (its own entries) ++ (previous version after the last recorded path)", first_diff(&got, &expected));
             }
+            // … and the same through a FILTER: listing the interrupted version below one of its directories, or with
+            // that directory excluded, gives exactly the matching part of the whole listing (stitching and
+            // selection commute; hunks without any selected entry still move the "last recorded path" on)
+            let apath_of = |raw: &str| String::from_utf8(hex::decode(raw.split(',').next().unwrap_or("")).unwrap_or_default()).unwrap_or_default();
+            let all_paths: Vec<String> = got.iter().map(|r| apath_of(r)).collect();
+            let mut dirs: Vec<String> = all_paths.iter().filter(|p| p.len() > 1 && all_paths.iter().any(|q| q.starts_with(&format!("{p}/")))).cloned().collect();
+            dirs.truncate(4);
+            for d in dirs {
+                let inside = |p: &str| p == d || p.starts_with(&format!("{d}/"));
+                let sub = real_list(arch, &Sel::Band(new_band), &d, &[], IceptConfig::default());
+                let got_sub: Vec<String> = sub.lines.iter().map(|x| x.strip_prefix("entry ").unwrap_or(x).to_string()).collect();
+                let exp_sub: Vec<String> = got.iter().filter(|r| inside(&apath_of(r))).cloned().collect();
+                report.hit("crash:interrupted-version-listed-by-subtree");
+                if !sub.result.starts_with("result ok") || got_sub != exp_sub {
+                    report.oracle_fail("crash:stitched-subtree-listing-wrong", case.clone(), "listing a subtree of the interrupted version is not the matching part of its whole listing", json!({"subtree": d, "diff": first_diff(&got_sub, &exp_sub)}));
+                }
+                let plain = d[1..].chars().all(|c| c.is_ascii_alphanumeric() || c == '.' || c == '-' || c == '_' || c == '/') && !d[1..].contains('/');
+                if plain {
+                    let ex = real_list(arch, &Sel::Band(new_band), "/", &[d.clone()], IceptConfig::default());
+                    let got_ex: Vec<String> = ex.lines.iter().map(|x| x.strip_prefix("entry ").unwrap_or(x).to_string()).collect();
+                    let exp_ex: Vec<String> = got.iter().filter(|r| !inside(&apath_of(r))).cloned().collect();
+                    report.hit("crash:interrupted-version-listed-with-exclusion");
+                    if !ex.result.starts_with("result ok") || got_ex != exp_ex {
+                        report.oracle_fail("crash:stitched-excluded-listing-wrong", case.clone(), "listing the interrupted version with one directory excluded is not the rest of its whole listing", json!({"excluded": d, "diff": first_diff(&got_ex, &exp_ex)}));
+                    }
+                }
+            }
         }
         // restoring it reports no missing-block error
         let (rr, _) = restore_observe(arch, sc.run.work.path(), &Sel::Band(new_band), "c03i");
@@ -330,7 +357,26 @@ pub fn run(tier: &str, seed: u64, report: &mut Report) {
             }
         }
         steps.push(Step::SetTree(next_tree));
-        let params = BackupParamsLite { hunk: *rng.pick(&[1usize, 2, 3, 1000]), block: *rng.pick(&[3usize, 8, 16, 1 << 20]), cap: *rng.pick(&[0u64, 4, 8, 1 << 20]) };
+        let mut params = BackupParamsLite { hunk: *rng.pick(&[1usize, 2, 3, 1000]), block: *rng.pick(&[3usize, 8, 16, 1 << 20]), cap: *rng.pick(&[0u64, 4, 8, 1 << 20]) };
+        if sidx == 1 {
+            // directed (second scenario of every run): the interrupted version has several hunks, its LAST ones hold
+            // nothing below /a, and a path below /a that sorted after the last /a entry it recorded (/a/5) was deleted
+            // from the source: listing the interrupted version below /a, or with /b excluded, must not bring /a/5 back
+            let mk = |name: &str, kind: NodeKind, m: i64| Node { comps: if name.is_empty() { vec![] } else { name.split('/').map(|x| x.to_string()).collect() }, kind: kind.clone(), mode: if matches!(kind, NodeKind::Dir) { 0o755 } else { 0o644 }, mtime_ns: 1_600_000_000_000_000_000 + m, uid: 0, gid: 0 };
+            let mut t = Tree::default();
+            t.nodes.insert("/".into(), mk("", NodeKind::Dir, 0));
+            for d in ["a", "b"] {
+                t.nodes.insert(format!("/{d}"), mk(d, NodeKind::Dir, 1));
+            }
+            for (i, f) in ["a/1", "a/2", "a/3", "a/5", "b/1", "b/2", "b/3", "b/4", "b/5"].iter().enumerate() {
+                t.nodes.insert(format!("/{f}"), mk(f, NodeKind::File(format!("content of {f}").into_bytes()), 10 + i as i64));
+            }
+            let mut t2 = t.clone();
+            t2.nodes.remove("/a/5");
+            steps = vec![Step::SetTree(t), Step::Backup(BackupParamsLite { hunk: 3, block: 1 << 20, cap: 1 << 20 }), Step::SetTree(t2)];
+            params = BackupParamsLite { hunk: 3, block: 1 << 20, cap: 1 << 20 };
+            report.hit("directed:trailing-hunks-outside-the-selection");
+        }
         let case_id = json!({"case_seed": case_seed, "prefix": history_json(&steps), "interrupted_backup": params.json()});
         let mut sc = build_scenario(&steps, report, &case_id, "crash-prefix");
         let p = params.params();
